@@ -89,19 +89,27 @@ Definition code_sem : sem :=
 
 (** * The fragment F1
 
-    the factors of [act_design] are simple or WithinTrial (no complex window); the
-    factors outside [act_design] (implied) are derived from factors of
-    [act_design] through any window that never reads before the first trial, by
-    tables one level of which accepts every argument tuple; sustain 1, zero preambles, exclusions from a crossing only through Exclude
+    the factors of [act_design] are simple, WithinTrial, or have a complex window
+    (width, stride, start >= width - 1) over simple / WithinTrial factors of
+    [act_design]; the factors outside [act_design] (implied) are derived from
+    such factors through any window that never reads before the first trial, by
+    tables one level of which accepts every argument tuple; sustain 1, crossings
+    after their preambles (a crossed complex factor has stride 1 and starts no
+    later than the crossing), exclusions from a crossing only through Exclude
     constraints and inconsistent derived levels, constraint kinds Consistency / Cross / Derivation (simple) /
     AtMostKInARow / AtLeastKInARow / ExactlyKInARow / ExactlyK / Exclude / Pin /
     Sequential (and the kinds that compile to nothing), unambiguous derived-level tables that the [Derivation]
     constraints of the record reproduce literally. *)
 Definition factor_f1 (fd : ffactor) : bool :=
-  negb (ff_complex fd) && (0 <? length (ff_levels fd)) &&
+  (0 <? length (ff_levels fd)) &&
   match ff_window fd with
-  | None => true
-  | Some w => (win_width w =? 1) && (win_stride w =? 1) && (win_start w =? 0)
+  | None => negb (ff_complex fd)
+  | Some w =>
+    if ff_complex fd
+    then (* Transition / Window(width, stride, start): never reads before the first trial *)
+      (0 <? win_width w) && (0 <? win_stride w) && (win_width w - 1 <=? win_start w) &&
+      (win_start_delta w =? Z.of_nat (win_start w - (win_width w - 1)))%Z
+    else (win_width w =? 1) && (win_stride w =? 1) && (win_start w =? 0)
   end.
 
 (** a factor outside [act_design] (implied: no variables, its row is computed
@@ -123,6 +131,17 @@ Fixpoint entry_ok (deps : list nat) (entry : list (list (option nat))) : bool :=
   | _, _ => false
   end.
 
+(** the same for a window of [width] trials: per depended-on factor [width] in-range levels *)
+Definition colw_ok (width dep : nat) (col : list (option nat)) : bool :=
+  (length col =? width) && forallb (fun c => match c with Some x => x <? nlevels fb dep | None => false end) col.
+
+Fixpoint entryw_ok (width : nat) (deps : list nat) (entry : list (list (option nat))) : bool :=
+  match deps, entry with
+  | [], [] => true
+  | d :: ds, col :: e => colw_ok width d col && entryw_ok width ds e
+  | _, _ => false
+  end.
+
 (** membership in [act_design] (the factors that have SAT variables) *)
 Definition isact (f : nat) : bool := existsb (Nat.eqb f) (fl_act fb).
 
@@ -130,25 +149,17 @@ Definition isact (f : nat) : bool := existsb (Nat.eqb f) (fl_act fb).
 Definition act_sorted : bool :=
   list_nat_eqb (fl_act fb) (filter isact (seq 0 (length (fl_design fb)))).
 
-(** every table entry has one in-range cell per depended-on factor, and the
-    depended-on factors are factors of [act_design] *)
+(** every table entry has one in-range cell per depended-on factor (and per
+    trial of the window), and the depended-on factors are factors of
+    [act_design] without a complex window *)
 Definition tables_ok (f : nat) (fd : ffactor) : bool :=
   match ff_window fd with
   | None => true
   | Some w =>
-    forallb isact (win_deps w) &&
-    (negb (isact f) || forallb (fun lv => forallb (entry_ok (win_deps w)) (lv_accepts lv)) (ff_levels fd))
-  end.
-
-(** no argument tuple is accepted by two levels *)
-Definition tables_unambiguous (f : nat) (fd : ffactor) : bool :=
-  negb (isact f) ||
-  match ff_window fd with
-  | None => true
-  | Some w =>
-    forallb (fun args =>
-               length (filter (fun l => level_accepts fd l args) (seq 0 (length (ff_levels fd)))) <=? 1)
-            (product (map (fun d => seq 0 (nlevels fb d)) (win_deps w)))
+    forallb (fun d => isact d && negb (is_complex fb d)) (win_deps w) &&
+    (negb (isact f) ||
+     forallb (fun lv => forallb (if ff_complex fd then entryw_ok (win_width w) (win_deps w) else entry_ok (win_deps w))
+                                (lv_accepts lv)) (ff_levels fd))
   end.
 
 (** the argument tuples of a window: per depended-on factor [width] cells, each a level *)
@@ -160,6 +171,21 @@ Fixpoint all_cols (n width : nat) : list (list (option nat)) :=
 
 Definition all_args (w : fwindow) : list (list (list (option nat))) :=
   product (map (fun d => all_cols (nlevels fb d) (win_width w)) (win_deps w)).
+
+(** no argument tuple is accepted by two levels *)
+Definition tables_unambiguous (f : nat) (fd : ffactor) : bool :=
+  negb (isact f) ||
+  match ff_window fd with
+  | None => true
+  | Some w =>
+    if ff_complex fd
+    then forallb (fun args =>
+                    length (filter (fun l => accepts (dwin fd w) l args) (seq 0 (length (ff_levels fd)))) <=? 1)
+                 (all_args w)
+    else forallb (fun args =>
+                    length (filter (fun l => level_accepts fd l args) (seq 0 (length (ff_levels fd)))) <=? 1)
+                 (product (map (fun d => seq 0 (nlevels fb d)) (win_deps w)))
+  end.
 
 (** exactly one level accepts every argument tuple (the implied factors,
     whose level is computed from the others after solving) *)
@@ -198,12 +224,28 @@ Definition expected_deps (w : fwindow) (lv : flevel) : list (list didx) :=
                             | _ => DBefore 0
                             end) (win_deps w) entry) (lv_accepts lv).
 
+(** ... and for level [l] of a factor with a complex window: per table entry the
+    first variables of the [width] levels of every depended-on factor, the
+    [j]-th shifted by [j] trials ([shift_window]) *)
+Definition expected_deps_c (w : fwindow) (lv : flevel) : list (list didx) :=
+  map (fun entry =>
+         concat (map2 (fun d col =>
+                         map (fun jc => match snd jc with
+                                        | Some x => match first_variable_for_level fb d x with
+                                                    | Some v => DIdx (v + fst jc * variables_per_trial fb)
+                                                    | None => DBefore 0
+                                                    end
+                                        | None => DBefore 0
+                                        end) (combine (seq 0 (length col)) col))
+                      (win_deps w) entry)) (lv_accepts lv).
+
 Definition is_derivation_of (f l : nat) (c : fconstraint) : bool :=
   match c, factor_at fb f with
   | FDerivation d deps f', Some fd =>
     match ff_window fd, nth_error (ff_levels fd) l, first_variable_for_level fb f l with
     | Some w, Some lv, Some v =>
-      (f' =? f) && (d =? v) && list_eqb' (list_eqb' didx_eqb) deps (expected_deps w lv)
+      (f' =? f) && (d =? v) &&
+      list_eqb' (list_eqb' didx_eqb) deps (if ff_complex fd then expected_deps_c w lv else expected_deps w lv)
     | _, _, _ => false
     end
   | _, _ => false
@@ -228,26 +270,47 @@ Definition derivations_match : bool :=
 Definition geom_ok (wb : option geometry) : bool :=
   match map_block_trial_ranges fb wb with Some _ => true | None => false end.
 
+(** the 0-based trials of [a, b) in which factor [f] has a level *)
+Definition trials_of (f a b : nat) : list nat := filter (fun t => applies_at fb f (S t)) (seq a (b - a)).
+
+(** a factor whose levels exist in a suffix of the trials (stride 1) *)
+Definition stride1 (f : nat) : bool :=
+  match factor_at fb f with
+  | Some fd => match ff_window fd with Some w => negb (ff_complex fd) || (win_stride w =? 1) | None => true end
+  | None => true
+  end.
+
+Definition start_of (f : nat) : nat :=
+  match factor_at fb f with
+  | Some fd => match ff_window fd with Some w => win_start w | None => 0 end
+  | None => 0
+  end.
+
 Definition constraint_f1 (c : fconstraint) : bool :=
   match c with
   | FCross | FConsistency | FReify _ | FMinimumTrials _ | FContinuous => true
   | FDerivation _ _ _ => true                      (* shape checked by [derivations_match] *)
-  | FAtMost _ f l wb => isact f && (l <? nlevels fb f) && geom_ok wb
+  | FAtMost _ f l wb => isact f && (l <? nlevels fb f) && geom_ok wb && stride1 f
   | FExactlyK _ f l wb =>
-    isact f && (l <? nlevels fb f) && geom_ok wb &&
-    forallb (fun r => fst r <? snd r) (windows_of wb)     (* no empty window: EQ on no variables raises *)
-  | FExclude f l => isact f && (l <? nlevels fb f)
-  | FPin _ f l wb => isact f && (l <? nlevels fb f) && geom_ok wb && (geometry_sustain fb wb f =? 1)
+    isact f && (l <? nlevels fb f) && geom_ok wb && stride1 f &&
+    (* no window without a variable: EQ on no variables raises *)
+    forallb (fun r => match trials_of f (fst r) (snd r) with [] => false | _ => true end) (windows_of wb)
+  | FExclude f l => isact f && (l <? nlevels fb f) && stride1 f
+  | FPin _ f l wb => isact f && negb (is_complex fb f) && (l <? nlevels fb f) && geom_ok wb && (geometry_sustain fb wb f =? 1)
   | FAtLeast k f l wb | FExactlyKInARow k f l wb =>
-    (0 <? k) && isact f && (l <? nlevels fb f) && geom_ok wb
-  | FSequential f => isact f
+    (0 <? k) && isact f && (l <? nlevels fb f) && geom_ok wb && stride1 f
+  | FSequential f =>
+    isact f && negb (is_complex fb f) &&
+    match factor_preamble_size fb f with COk 0 => true | _ => false end
   | _ => false
   end.
 
+(** a crossing: its factors are in [act_design]; a crossed factor with a complex
+    window has stride 1 and its first level no later than the first crossing trial *)
 Definition crossing_f1 (i : nat) (c : list nat) : bool :=
-  forallb isact c &&
+  forallb (fun f => isact f && stride1 f && (start_of f <=? preamble_size fb i)) c &&
   (0 <? nth i (fl_sizes fb) 0 * crossing_weight fb c) &&
-  (nth i (fl_preambles fb) 0 =? 0) &&
+  (preamble_size fb i <? fl_trials fb) &&
   match c with [] => false | _ => true end.
 
 Fixpoint crossings_f1 (i : nat) (cs : list (list nat)) : bool :=
@@ -280,8 +343,6 @@ Definition in_f1 : bool :=
   (act_sorted && forallb (fun p => implied_ok (fst p) (snd p)) (combine (seq 0 (length (fl_design fb))) (fl_design fb))) &&
   forallb (fun n => n =? 1) (fl_sustains fb) &&
   (length (fl_sustains fb) =? length (fl_crossings fb)) &&
-  (match fl_alignment fb with PostPreamble => fl_alignment_preamble fb =? 0 | _ => true end) &&
-  forallb (fun n => n =? 0) (fl_preambles fb) &&
   crossings_f1 0 (fl_crossings fb) &&
   forallb list_nat_nodup (fl_crossings fb) &&
   forallb constraint_f1 (fl_constraints fb) &&
@@ -299,7 +360,7 @@ Definition f1_why : list bool :=
     forallb (fun p => tables_unambiguous (fst p) (snd p)) (combine (seq 0 (length (fl_design fb))) (fl_design fb));
     act_sorted && forallb (fun p => implied_ok (fst p) (snd p)) (combine (seq 0 (length (fl_design fb))) (fl_design fb));
     forallb (fun n => n =? 1) (fl_sustains fb);
-    (match fl_alignment fb with PostPreamble => fl_alignment_preamble fb =? 0 | _ => true end) && forallb (fun n => n =? 0) (fl_preambles fb);
+    true;
     crossings_f1 0 (fl_crossings fb);
     forallb list_nat_nodup (fl_crossings fb);
     forallb constraint_f1 (fl_constraints fb);
